@@ -36,11 +36,15 @@ def fetchJ (file : Bytes) (idx : List IdxRow) (n : Bytes) (a b : Nat) : Json :=
 
 def handle (op : String) (j : Json) : Except String Json := do
   let recs ← getRecs j
+  let blanks ← (← getArr j "recs").mapM (fun r => match r.getObjVal? "blank" with
+    | .ok v => v.getNat?
+    | _ => pure 0)
+  let recsB := recs.zip blanks
   let noNL := match j.getObjVal? "no_final_newline" with
     | .ok (Json.bool b) => b
     | _ => false
-  let file := if noNL then (fileOf recs).dropLast else fileOf recs
-  let spec := (specIndex recs).map (fun r => { r with name := firstWord r.name })
+  let file := if noNL then (fileOfB recsB).dropLast else fileOfB recsB
+  let spec := (specIndexFromB 0 recsB).map (fun r => { r with name := firstWord r.name })
   match op with
   | "index" =>
     let idx := createIndex file
